@@ -267,7 +267,7 @@ def build_cases(tier, rng):
         cases.append(([f, f, "ok"], "given", True))
     # one witness of the pipe deadlock (a hang costs the whole 40 s time-out, so it is not part of the random line-ups)
     cases.append((["flood-before-reading", "ok"], "given", True))
-    for _ in range(600 if tier == "quick" else 6000):
+    for _ in range(600 if tier == "quick" else 30000):
         trip = [rng.choice(names + ["ok", "ok"]) for _ in range(3)]
         cases.append((trip, rng.choice(OUT_MODES), rng.random() < 0.1))
     return cases
